@@ -114,7 +114,7 @@ impl Property for C02 {
                     };
                     // soundness direction always
                     if let Some((class, msg)) = check_answer(&case.pg.program, &lg.peeled, &ans, &sets) {
-                        let co = co_qual(g, sets.st.co_cycle);
+                        let co = co_qual_st(g, &sets.st, false);
                         out.fail(format!("{}:{}{}", base, class, co), format!("[{}] {}\n{}goal: {}\nanswer: {}", name, msg, low.text, lg.text, rendered));
                         continue;
                     }
